@@ -30,8 +30,10 @@ def run_stream(profile_name, n, seed, keep_samples=2):
     all_lines, all_blocks, all_ops = [], [], []
     stats = collections.Counter()
     t0 = time.time()
+    loggers = []
     for i in range(n):
         impl = core.Impl(user_logger=r.random() < P.user_logger)
+        loggers.append(impl.user_logger)
         ops = gen.gen_history(r, P, impl)
         all_lines.append(impl.lines)
         all_blocks.append(impl.blocks)
@@ -61,7 +63,8 @@ def run_stream(profile_name, n, seed, keep_samples=2):
         if d is not None and d[0] == "ambiguous":
             stats["float_ambiguous_histories"] += 1
         elif d is not None:
-            mismatches.append(dict(index=i, op_index=d[0], diff=d[1], lines=all_lines[i][: d[0] + 1]))
+            mismatches.append(dict(index=i, op_index=d[0], diff=d[1], lines=all_lines[i][: d[0] + 1],
+                                   ops=all_ops[i], user_logger=loggers[i]))
         sg = history_signature(all_lines[i])
         if sg not in sigs and nontrivial(ib):
             nontriv += 1
